@@ -15,7 +15,8 @@ TStatic == /\ IsEv("static")
                   ok == /\ ~e.panicked
                         /\ e.kind = p.kind /\ e.id = p.id
                         /\ (p.kind = "redirect" => e.loc = p.loc)
-                        /\ (p.kind = "silent" => ~e.written /\ e.next_ran)   \* writes nothing, the rest of the chain runs
+                        /\ (p.kind = "silent" => ~e.written /\ e.next_ran /\ e.leaked = 0)   \* writes nothing (no status, no body,
+                                                                                             \* no header), the rest of the chain runs
               IN Verdict(IF ok THEN "ok" ELSE "bad")
 TNext == TReset \/ TStatic
 TSpec == TInit /\ [][TNext]_tvars
